@@ -30,6 +30,17 @@ func notClaimed() [][2]string {
 func props() []prop {
 	return []prop{
 		{
+			ID: "C13", Level: "fault_enumeration",
+			LevelText:   "Fault enumeration over the wire formats: for valid encodings of every registered type (three forms), version vectors, the handshake and primitive shapes, EVERY truncation, EVERY single-byte corruption (4 substitutions) and EVERY 4-byte window replaced by hostile lengths is fed to the real decoders, plus fixed/PRNG hostile strings and frames up to the 4 MiB limit; on the encode side one value of every unsupported reflect.Kind and malformed messages. Sentinels around each single-threaded call decide: panic, allocation out of proportion (runtime/metrics delta), time, caller's value modified by a failed Read, unsupported value encoded silently; cases run in child processes (8 GiB address-space limit) that journal every case before it starts, so a stack overflow, out-of-memory death or hang is attributed to its input and the enumeration continues after it.",
+			LevelNote:   "Trusted: the allocation bound 16 MiB + 64 x len(input) is set by the code's own caps (a map pre-sized for the permitted 65 536 entries costs about 3 MiB); allocation attribution is exact because calls are single-threaded. Inputs derive from generated valid encodings, not from a grammar of all byte strings.",
+			Technique:   "fault enumeration (truncation / corruption / hostile length at every offset) with sentinel monitors in journaled child processes",
+			DesignRef:   "DESIGN.md §4 C13",
+			Assumptions: with("a binary-safe user Codec stands in for application messages"),
+			Units: []unit{
+				{Check: "codechostile", Pkg: "internal/actor", Shards: [2]int{8, 16}, Timeout: [2]time.Duration{10 * min, 60 * min}, CrashKey: "c13-crash", OnlyKinds: []string{"c13-", "harness-"}},
+			},
+		},
+		{
 			ID: "C12", Level: "exploration",
 			LevelText:   "decode(encode(x)) is compared with x (canonical form; nil == empty, time by instant, refs by address|path, errors by code+message) for reflection-generated values of every type in the wire registry, which is enumerated at run time through an overlaid export so that newly registered messages are picked up; message layer (WriteMessage/ReadMessage incl. nested registered and user-codec messages), envelope layer (system flag, nil/local/remote sender and receiver) and primitive layer (struct/slice/array shapes over all kinds Writer.Write and Reader.Read both support); the reader position must equal the number of bytes written. A registered type for which no value can be generated makes the run inconclusive instead of being skipped.",
 			LevelNote:   "Trusted: the canonical-form function and the generators. Domain notes (not stricter than the codec's contract): int fields that the writers narrow to int32 are generated within int32; PongMessage.Ping == nil and pointer-typed struct fields are C13's business (must be an error, not a round trip).",
